@@ -141,6 +141,15 @@ func checkC14(c C14Case) *Violation {
 	want := modelChain(c.Key, c.Chain)
 	if c.CLI {
 		res := crd("", "info", "key", "conv", "--key", c.Key, "-c", c.Chain)
+		switch (len(c.Key) + len(c.Chain)) % 5 {
+		case 1: // the answer goes to an -o file
+			res = Run{Argv: []string{"info", "key", "conv", "--key", c.Key, "-c", c.Chain, "-o", "@answer.txt"}, OutArg: "answer.txt"}.Exec()
+			if res.Exit == 0 && len(res.Stdout) == 0 {
+				res.Stdout = res.OutFile
+			}
+		case 2: // diagnostics are on
+			res = crd("", "info", "key", "conv", "--key", c.Key, "-c", c.Chain, "--debug")
+		}
 		if v := cleanOutcome(res); v != nil {
 			return v
 		}
